@@ -23,6 +23,9 @@ type c07SItem struct {
 	Sub  *c07SItem
 }
 
+// Greet takes a required argument.
+func (it *c07SItem) Greet(name string, loud bool) string { return "hi " + name + it.Name }
+
 // Boom fails on every call.
 func (it *c07SItem) Boom() (int, error) { return 0, errors.New("boom failed for " + it.Name) }
 
@@ -35,7 +38,9 @@ var c07SKeyRe = regexp.MustCompile(`[A-Za-z_][A-Za-z_0-9]*`)
 // envelope, positive locations inside the submitted text and on a line that holds the failing field's response key, and
 // a path of response keys and indices only (it must not grow from request to request).
 func c07Sequence(c *run.Ctx) {
-	const sdl = "type Query { a: Int item: Item items: [Item] }\ntype Item { name: String weight: Int boom: Int odd: Int sub: Item }\n"
+	// the type definitions sit far down and far right in THEIR document: a position taken from the schema is outside most requests
+	const sdl = "type Query { a: Int item: Item items: [Item] }\n\n\n\n\n\n\n\n\n\n\n\n\n\n                                        type Item { name: String weight: Int boom: Int odd: Int sub: Item\n" +
+		"                                                  greet(\n                                                          name: String!,\n                                                          loud: Boolean): String }\n"
 	reqs := []string{
 		"{ item { weight } }",
 		"{\n  a\n  item {\n    name\n    w: weight\n  }\n}",
@@ -49,6 +54,9 @@ func c07Sequence(c *run.Ctx) {
 		"{ items { name } a }",
 		"{ item { name ...F } }\n\n\n\nfragment F on Item {\n  wf: weight\n  bf: boom }",
 		"{ item { sub { sub { name } } }\n items { ow: odd } }",
+		"{ item { greet } }",
+		"{ a\n item {\n  g2: greet(loud: true)\n } }",
+		"{ items { name greet(name: \"Bo\") } item { sub { greet } } }",
 	}
 	depth := map[string]int{}
 	for _, t := range reqs {
@@ -102,7 +110,7 @@ func c07Sequence(c *run.Ctx) {
 			c.Count("error_entries_checked", len(el))
 			diag, _ := envelopeCheck(resp, text, lines, false, false)
 			if diag == "" {
-				want := strings.Contains(text, "weight") || strings.Contains(text, "boom") || strings.Contains(text, "odd")
+				want := strings.Contains(text, "weight") || strings.Contains(text, "boom") || strings.Contains(text, "odd") || strings.Contains(text, "greet }") || strings.Contains(text, "greet(loud")
 				if want && len(el) == 0 {
 					diag = "a failing field was selected and the response has no errors"
 				}
